@@ -321,24 +321,30 @@ func (app *App) optimizeReplicaWithSmallestLag(
 	ticker := time.NewTicker(3 * time.Second)
 	defer ticker.Stop()
 
-	app.startSyncerGoroutine(
+	syncerDone := app.startSyncerGoroutine(
 		ctx,
 		ticker,
 		clusterAdapter,
 	)
 
-	return app.optController.Wait(
+	err = app.optController.Wait(
 		ctx,
 		replicaToOptimize,
 	)
+	// the helper must be gone before the caller restores the settings and freezes the nodes
+	cancel()
+	<-syncerDone
+	return err
 }
 
 func (app *App) startSyncerGoroutine(
 	ctx context.Context,
 	ticker *time.Ticker,
 	cluster optimization.Cluster,
-) {
+) <-chan struct{} {
+	done := make(chan struct{})
 	go func() {
+		defer close(done)
 		for {
 			select {
 			case <-ctx.Done():
@@ -351,6 +357,7 @@ func (app *App) startSyncerGoroutine(
 			}
 		}
 	}()
+	return done
 }
 
 func (app *App) chooseReplicaToOptimize(
@@ -419,6 +426,11 @@ func (app *App) optimizationPhase(
 		}
 		app.logger.Info().Msg("switchover: rejected")
 		return err
+	}
+
+	// turbo mode is over: restore durable settings and deregister the nodes before they are frozen and one of them promoted
+	if disableErr := app.stopActiveNodeOptimization(oldMaster, activeNodes); disableErr != nil {
+		return disableErr
 	}
 
 	// Conceptually, we should only reject the switchover if we encounter a DeadlineExceeded error.
